@@ -3,7 +3,7 @@ import re
 from fractions import Fraction
 
 from oracle import defs as D
-from rules.core import (copy_root, NotATable, TableIndexOutOfRange, tbl_eval, switch_keys, AnchorMissing, fold, op_local, find_fn_suffix, callee_name)
+from rules.core import (strip_casts, op_expr, copy_root, NotATable, TableIndexOutOfRange, tbl_eval, switch_keys, AnchorMissing, fold, op_local, find_fn_suffix, callee_name)
 
 PF = "lexical_parse_float::"
 
@@ -133,7 +133,45 @@ def rule_lemire(col, facts):
                             if len(vals) == 2 and all(isinstance(v, int) for v in vals):
                                 win = vals
     if win is None:
-        col.bad(R, "safe-exponent-shape", "compute_float no longer builds a constant RangeInclusive for the safe exponent window", cf.loc())
+        # the same window spelt with comparisons (`q < -27 || q > 55`): the literal bounds q (argument 1) is
+        # compared with on the way to compute_error_scaled
+        los, his = [], []
+        from rules.core import rvalue_expr
+        cmps = []
+        for i, b in enumerate(cf.blocks):
+            if not cf.live(i):
+                continue
+            if b["t"]["k"] == "switch":
+                cmps.append(strip_casts(op_expr(cf, b["t"]["d"])))
+            for st in b["s"]:           # `a || b` assigns the second comparison instead of branching on it
+                if st[0] == "=" and st[2][0] == "bin" and st[2][1] in ("Lt", "Le", "Gt", "Ge"):
+                    cmps.append(strip_casts(rvalue_expr(cf, st[2], 0)))
+        seen_cmp = set()
+        for e in cmps:
+                if e in seen_cmp:
+                    continue
+                seen_cmp.add(e)
+                if e[0] == "bin" and e[1] in ("Lt", "Le", "Gt", "Ge"):
+                    l, r = strip_casts(e[2]), strip_casts(e[3])
+                    if l[:2] == ("arg", 1) and r[0] == "k" and isinstance(r[1], int) and abs(r[1]) < 200:
+                        v, op = r[1], e[1]
+                    elif r[:2] == ("arg", 1) and l[0] == "k" and isinstance(l[1], int) and abs(l[1]) < 200:
+                        v, op = l[1], {"Lt": "Gt", "Gt": "Lt", "Le": "Ge", "Ge": "Le"}[e[1]]
+                    else:
+                        continue
+                    # q < v / q <= v delimit the window from below (inclusive bound v / v+1), q > v / q >= v from above
+                    if op == "Lt":
+                        los.append(v)
+                    elif op == "Le":
+                        los.append(v + 1)
+                    elif op == "Gt":
+                        his.append(v)
+                    elif op == "Ge":
+                        his.append(v - 1)
+        if len(los) == 1 and len(his) == 1 and any(callee_name(c).endswith("compute_error_scaled") for _b, c, _a, _d, _t in cf.calls()):
+            win = [los[0], his[0]]
+    if win is None:
+        col.bad(R, "safe-exponent-shape", "compute_float has neither a constant RangeInclusive nor a pair of literal comparisons of q for the safe exponent window", cf.loc())
     else:
         lo, hi = win
         ok = lo <= 0 <= hi and 5 ** hi < (1 << 128) and 5 ** (-lo) < (1 << 64)
